@@ -1150,6 +1150,11 @@ class Interp:
                 inst.attrs["args"] = tuple(args)
             elif nb in (list, dict, set) and self.native_instances:
                 inst.attrs["__native__"] = nb()
+            elif nb in (bytes, str, int, float, frozenset) and cv.lookup("__new__")[1] is _MISSING and cv.lookup("__init__")[1] is _MISSING:
+                try:
+                    return nb(*args, **kwargs)     # value semantics only (repr/str overrides are irrelevant to tables)
+                except Exception as ex:
+                    raise PyRaise(ex)
             else:
                 return Unknown("instance of %s (native base %s)" % (cv.name, nb.__name__))
         k, init = cv.lookup("__init__")
